@@ -103,7 +103,8 @@ def run(ctx):
     d1 = tempfile.mkdtemp(prefix="cctcwd")
     try:
         configs = [({"PYTHONHASHSEED": "1"}, None), ({"PYTHONHASHSEED": "random"}, None), ({"PYTHONHASHSEED": "4294967295", "LC_ALL": "C", "LANG": "C"}, None),
-                   ({"LC_ALL": "POSIX", "TZ": "Asia/Kolkata", "PYTHONUTF8": "0"}, d1), ({"TZ": "America/St_Johns", "LC_ALL": "C.UTF-8", "PYTHONIOENCODING": "latin-1"}, d1)]
+                   ({"LC_ALL": "POSIX", "TZ": "Asia/Kolkata", "PYTHONUTF8": "0"}, d1), ({"TZ": "America/St_Johns", "LC_ALL": "C.UTF-8", "PYTHONIOENCODING": "latin-1"}, d1),
+                   ({"PYTHONWARNINGS": "error"}, None), ({"LC_ALL": "C", "PYTHONUTF8": "0", "PYTHONIOENCODING": "ascii"}, None)]
         for env, cwd in configs:
             got = implrun.run_impl(sample, env=env, cwd=cwd)
             for w, a, b in zip(sample, base, got):
